@@ -186,8 +186,13 @@ void GridGlobal::setTensors(MultiIndexSet &&tset, int cnum_outputs, TypeOneDRule
     }
 }
 
-void GridGlobal::proposeUpdatedTensors(){
-    wrapper = OneDimensionalWrapper(custom, updated_tensors.getMaxIndex(), rule, alpha, beta);
+void GridGlobal::proposeUpdatedTensors(MultiIndexSet &&proposed_tensors){
+    // the one dimensional rule may not have enough levels (hard-coded or custom table), find that out before anything is changed
+    OneDimensionalWrapper proposed_wrapper(custom, proposed_tensors.getMaxIndex(), rule, alpha, beta);
+
+    clearRefinement();
+    updated_tensors = std::move(proposed_tensors);
+    wrapper = std::move(proposed_wrapper);
 
     MultiIndexManipulations::computeActiveTensorsWeights(updated_tensors, updated_active_tensors, updated_active_w);
 
@@ -202,13 +207,13 @@ void GridGlobal::updateGrid(int depth, TypeDepth type, const std::vector<int> &a
     if ((num_outputs == 0) || points.empty()){
         makeGrid(num_dimensions, num_outputs, depth, type, rule, anisotropic_weights, alpha, beta, 0, level_limits);
     }else{
-        clearRefinement();
+        MultiIndexSet proposed_tensors = selectTensors((size_t) num_dimensions, depth, type, anisotropic_weights, rule, level_limits);
 
-        updated_tensors = selectTensors((size_t) num_dimensions, depth, type, anisotropic_weights, rule, level_limits);
-
-        if (!(updated_tensors - tensors).empty()){
-            updated_tensors += tensors;
-            proposeUpdatedTensors();
+        if (!(proposed_tensors - tensors).empty()){
+            proposed_tensors += tensors;
+            proposeUpdatedTensors(std::move(proposed_tensors));
+        }else{
+            clearRefinement();
         }
     }
 }
@@ -838,7 +843,6 @@ void GridGlobal::setAnisotropicRefinement(TypeDepth type, int min_growth, int ou
 }
 
 void GridGlobal::setSurplusRefinement(double tolerance, int output, const std::vector<int> &level_limits){
-    clearRefinement();
     std::vector<double> surp = computeSurpluses(output, true);
 
     int n = points.getNumIndexes();
@@ -853,8 +857,9 @@ void GridGlobal::setSurplusRefinement(double tolerance, int output, const std::v
         kids += points;
         MultiIndexManipulations::completeSetToLower(kids);
 
-        updated_tensors = std::move(kids);
-        proposeUpdatedTensors();
+        proposeUpdatedTensors(std::move(kids));
+    }else{
+        clearRefinement();
     }
 }
 void GridGlobal::setHierarchicalCoefficients(const double c[]){
